@@ -21,7 +21,7 @@ cvars == <<ccfg, cnow, cache, cq, csrv>>
 
 Sec(ms) == 1000000 + ms \div 1000
 Min2(a, b) == IF a < b THEN a ELSE b
-Key(lname, qt, rd, cd) == <<lname, qt, rd, cd>>
+Key(lname, qt, qc, rd, cd) == <<lname, qt, qc, rd, cd>>       \* name (case-folded, no trailing dot), type, class, RD, CD
 
 RECURSIVE MinSeq(_, _, _)
 MinSeq(s, i, acc) == IF i > Len(s) THEN acc ELSE MinSeq(s, i + 1, IF s[i] < acc THEN s[i] ELSE acc)
